@@ -19,13 +19,15 @@ HEADER = ("From Coq Require Import ZArith List Bool.\n"
 WQ = [("fixed", "quantized_bits(4,0,1,alpha=1.0)", True), ("fixed", "quantized_bits(8,2,1,alpha=1.0)", True), ("fixed", "quantized_bits(6,1,1,alpha=1.0)", True),
       ("fixed", "quantized_bits(3,0,0,alpha=1.0)", True), ("fixed", "quantized_bits(5,0,1,0,alpha=1.0)", True),
       ("po2", "quantized_po2(4)", True), ("po2", "quantized_po2(6)", True), ("po2", "quantized_po2(5,max_value=2.0)", True),
+      ("po2", "quantized_po2(8)", True), ("po2", "quantized_po2(7,max_value=2.0)", True),      # exponents far below log2(epsilon)
       ("binary", "binary(alpha=1.0)", True), ("ternary", "ternary(alpha=1.0)", True), ("binary", "binary(use_01=1,alpha=1.0)", True),
       ("const-alpha", "quantized_bits(6,0,1,alpha=2.0)", True),
       ("auto_po2", "quantized_bits(6,1,1,alpha='auto_po2')", False), ("auto_po2", "quantized_bits(4,0,1,alpha='auto_po2')", False),
       ("auto_po2", "quantized_bits(8,2,1,alpha='auto_po2')", False), ("auto_po2", "quantized_bits(4,0,1)", False),
       ("binary-auto", "binary(alpha='auto')", False), ("ternary-auto", "ternary(alpha='auto')", False), ("binary-auto", "binary(alpha='auto_po2')", False),
       ("ternary-auto", "ternary()", False), ("auto", "quantized_bits(5,0,1,alpha='auto')", False)]
-BQ = [("fixed", "quantized_bits(8,3,1)", True), ("po2", "quantized_po2(5)", True), ("relu_po2", "quantized_relu_po2(4)", True),
+BQ = [("fixed", "quantized_bits(8,3,1)", True), ("po2", "quantized_po2(5)", True), ("relu_po2", "quantized_relu_po2(4)", True), ("po2", "quantized_po2(8)", True),
+      ("relu_po2", "quantized_relu_po2(7)", True),
       ("auto_po2", "quantized_bits(6,2,1,alpha='auto_po2')", False), (None, None, True), ("fixed", "quantized_bits(6,1,1)", True)]
 AQ = ["quantized_relu(4,2)", "quantized_bits(8,3,1)", "quantized_tanh(4)", None, "relu"]
 
@@ -179,8 +181,14 @@ def main():
       rep.violation(f"build-{i}", f"model construction raised {type(e).__name__}: {str(e)[:300]}", {})
       continue
     ws = [rng.normal(0, 0.7, size=w.shape).astype(np.float32) * np.float32(2.0 ** int(rng.integers(-2, 2))) for w in m.get_weights()]
-    if rng.integers(0, 3) == 0 and ws:
-      ws[0].reshape(-1)[0] = 0.0
+    for w_ in ws:
+      r_ = int(rng.integers(0, 4))
+      if r_ == 0:
+        w_.reshape(-1)[::3] = 0.0                # pruned entries
+      elif r_ == 1 and w_.ndim == 1:
+        w_[...] = 0.0                            # a bias left at its zero initialisation
+      elif r_ == 2:
+        w_.reshape(-1)[0] = np.float32(1e-30)    # tiny (far below every code)
     m.set_weights(ws)
     rep.count(m.to_json())
     x = tf.constant(rng.normal(0, 1, size=(3,) + tuple(m.input_shape[1:])).astype(np.float32))
@@ -227,13 +235,21 @@ def main():
             sgn = np.asarray(sg[k], dtype=np.float32)
           else:
             sgn = np.ones_like(w_got)
-          if not np.all(np.isfinite(hw)):
-            good = False
-            rep.violation(f"po2-exponent-not-finite-{i}-{l.name}-{k}", f"{l.name} weight {k} ({q}): exported exponent is not finite", {})
-            continue
-          for a, b, c_ in zip(env.f2b(w_got), env.f2b(sgn), env.f2b(hw)):
-            po2_t.append(f"chk_po2_tuple {a} {b} {c_}")
-            items.append(("po2", i, l.name, k, str(q), (a, b, c_)))
+          fin = np.isfinite(hw)
+          if not np.all(fin):
+            # a stored weight of exactly 0 is not a power of two at all: the quantizer's float32 straight-through sum absorbed
+            # the code (C03 finding); its exponent is -inf.  Any other non-finite exponent is a violation.
+            zero_w = (w_got == 0)
+            if np.any(~fin & ~zero_w):
+              good = False
+              rep.violation(f"po2-exponent-not-finite-{i}-{l.name}-{k}", f"{l.name} weight {k} ({q}): exported exponent is not finite for a non-zero weight", {})
+            else:
+              rep.finding("C14-po2-code-absorbed-to-zero-has-no-exponent", f"{l.name} weight {k} ({q}): {int(np.sum(~fin))} stored weight(s) are exactly 0.0 "
+                          "(code absorbed by the float32 straight-through sum), exported exponent -inf", {"quantizer": str(q)})
+          for a, b, c_, ok_ in zip(env.f2b(w_got), env.f2b(sgn), env.f2b(np.where(fin, hw, 0.0)), fin.reshape(-1)):
+            if ok_:
+              po2_t.append(f"chk_po2_tuple {a} {b} {c_}")
+              items.append(("po2", i, l.name, k, str(q), (a, b, c_)))
         elif qn == "quantized_bits" and q.alpha == "auto_po2":
           sc = e.get("scales")
           if sc is None or len(sc) <= k or np.asarray(sc[k]).size == 0:
